@@ -9,6 +9,7 @@ import (
 	"os"
 	"sort"
 	"strings"
+	"sync"
 	"syscall"
 )
 
@@ -59,6 +60,9 @@ func asOSError(err error, kind, path string, partial int) error {
 
 // FS is the in-memory filesystem.
 type FS struct {
+	// mu serialises the fileIO entry points and Snapshot: code under test that calls them from several goroutines must
+	// not bring the model down (what it did is judged by the checks, not by a crash of the harness)
+	mu    sync.Mutex
 	Files map[string][]byte
 	Log   []Op
 	// Hook, if set, is consulted before each call (index = len(Log)).
@@ -112,6 +116,8 @@ func (fs *FS) Paths() []string {
 
 // Snapshot returns path -> content copy.
 func (fs *FS) Snapshot() map[string][]byte {
+	fs.mu.Lock()
+	defer fs.mu.Unlock()
 	m := map[string][]byte{}
 	for k, v := range fs.Files {
 		m[k] = append([]byte{}, v...)
@@ -163,6 +169,8 @@ func (fs *FS) fault(kind, path string, data []byte) *Fault {
 // ReadFile implements fileIO. It returns a fresh copy (see the note on
 // placement at the end).
 func (fs *FS) ReadFile(path string) ([]byte, error) {
+	fs.mu.Lock()
+	defer fs.mu.Unlock()
 	op := Op{Index: len(fs.Log), Kind: "read", Path: path}
 	if f := fs.fault("read", path, nil); f != nil && f.Err != nil {
 		f = &Fault{Err: asOSError(f.Err, "read", path, f.Partial), Partial: f.Partial, Kind: f.Kind}
@@ -213,6 +221,8 @@ const spareCap = 48
 // suffix match within one directory (the '*' of filepath.Glob does not
 // cross '/'), sorted like filepath.Glob.
 func (fs *FS) FindWithPrefixAndSuffix(prefix, suffix string) ([]string, error) {
+	fs.mu.Lock()
+	defer fs.mu.Unlock()
 	op := Op{Index: len(fs.Log), Kind: "find", Path: prefix, Suffix: suffix}
 	if f := fs.fault("find", prefix, nil); f != nil && f.Err != nil {
 		f = &Fault{Err: asOSError(f.Err, "find", prefix, f.Partial), Partial: f.Partial, Kind: f.Kind}
@@ -257,6 +267,8 @@ func (fs *FS) FindWithPrefixAndSuffix(prefix, suffix string) ([]string, error) {
 
 // WriteFile implements fileIO.
 func (fs *FS) WriteFile(path string, data []byte) error {
+	fs.mu.Lock()
+	defer fs.mu.Unlock()
 	cp := append([]byte{}, data...)
 	op := Op{Index: len(fs.Log), Kind: "write", Path: path, Data: cp, Sum: md5.Sum(cp)}
 	if f := fs.fault("write", path, data); f != nil && f.Err != nil {
